@@ -230,10 +230,16 @@ def eval_case(case):
             nver = rng.randint(0, 2)
             order = list(shape_tips)
             rng.shuffle(order)
-            for j, c in enumerate(order):
+            seq = order * rng.choice([1, 2, 2])          # X@A, Y@B, Z@A, ...
+            if rng.random() < 0.5:
+                seq = seq[:3]
+            tss = list(range(500, 500 + len(seq)))
+            if rng.random() < 0.4:
+                rng.shuffle(tss)                          # insertion order unrelated to timestamp order
+            for j, c in enumerate(seq):
                 for tid in ("//:e1", "//x:e2"):
-                    insert_version(tid, 500 + j, model.hash[c])
-                    log.append(["insert", tid, 500 + j, c])
+                    insert_version(tid, tss[j], model.hash[c])
+                    log.append(["insert", tid, tss[j], c])
         for i in range(nver):
             tid = rng.choice(["//:e1", "//:e1", "//x:e2"])
             how = rng.random()
